@@ -48,6 +48,40 @@ def corruptions():
             ("connect_err", connect_err), ("no_ultimatum", no_ultimatum), ("finalize_missing_fontlist", finalize_missing_fontlist)]
 
 
+def licence_table(v, wd):
+    """the licensing decision table (Licence.tla, enumerated by Gen_Licence) through the real x224 / mcs / sec connect
+    calls: every PDU by which a conforming server ends licensing must let connect succeed (C03); what the client does
+    with every other PDU is compared with the model of the implementation and reported as drift, never as a violation"""
+    vh = core.build_harness()
+    pp = os.path.join(wd, "lic.plans.ndjson")
+    r = core.tlc("Gen_Licence", wd=wd, env={"LICPLANS": pp}, timeout=900)
+    if r.rc != 0:
+        raise core.ToolError("Gen_Licence failed:\n" + core.tail(r.out))
+    rows = [json.loads(l) for l in open(pp)]
+    trace, blobs = os.path.join(wd, "lic.trace.ndjson"), os.path.join(wd, "lic.blobs.ndjson")
+    rc, err = core.run_harness(vh, "setup", ["--plans", pp, "--trace", trace, "--blobs", blobs], timeout=1500)
+    if rc != 0:
+        raise core.ToolError("setup driver failed on the licence table: " + err[-500:])
+    evs = [json.loads(l) for l in open(trace) if '"ev":"setup"' in l.replace('": "', '":"')]
+    if len(evs) != len(rows):
+        raise core.ToolError("licence table: %d rows, %d results" % (len(rows), len(evs)))
+    drift, nreq = {}, 0
+    for row, e in zip(rows, evs):
+        what = "security flags 0x%04x, bMsgType 0x%02x, preamble flags 0x%02x%s" % (row["sec"], row["mt"], row["pf"], (", dwErrorCode %d, dwStateTransition %d" % (row["code"], row["tr"])) if row["mt"] == 255 else "")
+        if row["required"] == "ok":
+            nreq += 1
+            if e["res"] != "ok":
+                v.violation("conn:licence:refused:pf%d" % row["pf"], "a conforming server ends licensing with %s: connect returns %s/%s" % (what, e["res"], e["ek"][:80]), {"row": row, "event": e})
+        elif e["res"] == "panic":
+            pass        # hostile licensing PDUs are C05's business
+        elif e["res"] != row["asbuilt"]:
+            k = "mt=%s pf=%s -> %s (model of the implementation: %s)" % ("alert" if row["mt"] == 255 else row["mt"], row["pf"], e["res"], row["asbuilt"])
+            drift[k] = drift.get(k, 0) + 1
+    if nreq == 0:
+        raise core.ToolError("vacuity: the licence table has no row that C03 requires to succeed")
+    return {"rows": len(rows), "required_to_succeed": nreq, "drift_from_model_of_implementation": drift}
+
+
 def run(tier, seed):
     v = core.Verdict("C03", tier, seed)
     wd = core.workdir("C03")
@@ -57,7 +91,7 @@ def run(tier, seed):
         _, plans = conn.gen_plans(wd, nconn, [0], seed)
         # user id sweep: boundaries always; every id 1001..65535 in the thorough tier (sampled in quick)
         base = plans[0]
-        uids = list(range(1001, 65536)) if tier == "thorough" else [1001, 1002, 1003 + 1, 1007, 0x7fff, 0x8000, 0xfffe, 0xffff] + list(range(1001, 65536, 997))
+        uids = [u for u in range(1001, 65536) if u != 1003] if tier == "thorough" else [1001, 1002, 1003 + 1, 1007, 0x7fff, 0x8000, 0xfffe, 0xffff] + list(range(1001, 65536, 997))
         for u in uids:
             p = json.loads(json.dumps(plans[u % len(plans)]))
             p["id"] = "uid%d" % u
@@ -83,6 +117,25 @@ def run(tier, seed):
         open(sp, "w").write("\n".join(sl[0]) + "\n")
         if core.tv_once("Trace_Rdp", sp, decoded, wd, overrides=True) is None:
             tested = selftest.run("Trace_Rdp", sl[0], decoded, wd, corruptions(), overrides=True)
+        lic = licence_table(v, wd)
+        # beyond the listed properties: the configuration is what the client requests (core data, capability sets);
+        # the same traces validated again with the extra conjunct CfgEchoOk - mismatches are notes, never violations
+        echo = {"runs": accepted, "mismatches": []}
+        if not rejects:
+            acc2, rej2 = core.tv_all("Trace_Rdp", trace, decoded, wd, shards=8, max_rejects=3, overrides=True, cfg="Trace_Rdp_cfgecho.cfg")
+            for r in rej2:
+                note = "run %s: %s" % (json.loads(r["run_events"][0]).get("run"), r["event"][:200])
+                echo["mismatches"].append(note)
+                print("NOTE: configuration echo (not a listed property): " + note)
+            echo["runs"] = acc2
+            # the extra conjunct is not vacuous: the same run recorded under another configured layout / name must be rejected
+            for field in ("layout", "name"):
+                evs = [json.loads(x) for x in sl[0]]
+                evs[0]["cfg"][field] = ("de" if evs[0]["cfg"]["layout"] != "de" else "us") if field == "layout" else evs[0]["cfg"]["name"] + [120]
+                cp = os.path.join(wd, "echo-self.ndjson")
+                open(cp, "w").write("\n".join(json.dumps(x, separators=(",", ":")) for x in evs) + "\n")
+                if core.tv_once("Trace_Rdp", cp, decoded, wd, overrides=True, cfg="Trace_Rdp_cfgecho.cfg") is None:
+                    raise core.ToolError("configuration echo pass is vacuous: a run recorded under another %s was accepted" % field)
         connected = sum(1 for l in lines if '"api":"connect"' in l and '"res":"ok"' in l)
         cov = {"states": mc.distinct, "transitions": mc.generated, "traces_validated_against_impl": accepted,
                "samples": [{"plan": plans[1], "first_events": [json.loads(x) for x in lines[runs[1][0] + 1:runs[1][0] + 5]]}],
@@ -90,9 +143,9 @@ def run(tier, seed):
                "rule": "%d (configuration, conforming server) pairs drawn by TLC (Gen_Rdp, RandomElement over class sets: NLA/admin/blank/auto/hash/check, credential and name classes incl. multi-byte and surrogate pairs, "
                        "screen sizes, layouts; selected protocol among those offered, user id, share id, reported version, optional core fields, SC_SECURITY presence, block order incl. unknown blocks, licence variant, capability list variant, "
                        "1-2 activations, error-info) + a user-id sweep of %d values; each executed end to end over real TLS; distinct = distinct (cfg, srv)" % (nconn, len(uids)),
-               "connections_established": connected, "events_validated": len(lines), "binding_selftest_rejected": tested, "checker_cmd": mc.cmd}
+               "connections_established": connected, "licence_table": lic, "configuration_echo": echo, "events_validated": len(lines), "binding_selftest_rejected": tested, "checker_cmd": mc.cmd}
         return v.finish("model_checking", cov, [
-            "conforming server: I/O channel 1003, no static channels, user id != 1003, licence preamble flags 0x03, one TLS record per TSRequest / licence PDU, CredSSP version 2 semantics",
+            "conforming server: I/O channel 1003, no static channels, user id != 1003, licensing ended at once by the server (new licence, or error alert STATUS_VALID_CLIENT / ST_NO_TRANSITION) under any defined preamble flags, one TLS record per TSRequest / licence PDU, CredSSP version 2 semantics",
             "the synchronize PDU's targetUser is not constrained", "OpenSSL (native-tls) on both ends of the in-process TLS link is trusted"])
     finally:
         core.cleanup(wd)
